@@ -15,7 +15,7 @@
 (* (SlimAPI): ks, vals, hasvals, o, R (retained indexes), rp (position of  *)
 (* key i in R or 0), nodes (Model table), valset.                          *)
 (***************************************************************************)
-EXTENDS SlimRender
+EXTENDS SlimStream
 
 Report(l, code, bad) ==
   IF bad = {} THEN TRUE
